@@ -129,6 +129,7 @@ var styleFns = []styleFnEntry{
 type Log struct {
 	Approved  map[string]bool // u.String() of every URL a custom check approved
 	Rewritten map[string]bool // u.String() after every rewriter call
+	RewriteIn []string        // u.String() before every rewriter call
 	Calls     int
 }
 
@@ -473,6 +474,7 @@ func ApplyOp(p *bluemonday.Policy, o Op, log *Log) {
 			inner := fn
 			fn = func(u *url.URL) {
 				log.Calls++
+				log.RewriteIn = append(log.RewriteIn, u.String())
 				inner(u)
 				log.Rewritten[u.String()] = true
 			}
@@ -986,7 +988,7 @@ func (m *Model) SchemeAllowed(scheme string) (allowed bool, custom []int) {
 	return false, nil
 }
 
-var dataURIImagePrefixRe = regexp.MustCompile(`^image/(gif|jpeg|png|webp);base64,`)
+var dataURIImagePrefixRe = regexp.MustCompile(`^image/(gif|jpeg|png|svg\+xml|webp);base64,`)
 
 // dataURIImageOK restates the documented check of AllowDataURIImages on the raw value.
 func dataURIImageOK(u *url.URL) bool {
